@@ -163,4 +163,23 @@ def retryOK (reqs : List WinReq) (answers : List (Nat × WinObs)) (retries : Lis
       | none => true
     | _, _, _, _ => true
 
+/-! ## sliding window over scripted counts: is the advertised `Retry-After` truthful? -/
+
+/-- the sliding estimate (times `W·10⁹`) that the key's next request would see at instant `t` (ns), when the
+    window starting at `ws` holds `c` counted requests, the one before it `p`, and nothing else arrives:
+    inside the window `c + p·(1 − e/W)`, in the next window `c·(1 − e/W)`, afterwards 0 -/
+def estimateNum (W c p ws t : Nat) : Nat :=
+  let Wns := W * nsPerSec
+  if t < (ws + W) * nsPerSec then c * Wns + p * (Wns - (t - ws * nsPerSec))
+  else if t < (ws + 2 * W) * nsPerSec then c * (Wns - (t - (ws + W) * nsPerSec))
+  else 0
+
+/-- a request served at `now` on counts `(cur, prev)` of the window starting at `ws`: if it is answered
+    `Retry-After: R`, then `R` seconds later the estimate — this request counted, no other traffic — is below
+    the limit, i.e. the retry succeeds -/
+def scriptedRetryOK (limit W cur prev ws now : Nat) (o : WinObs) : Bool :=
+  match o.retryAfter with
+  | some R => decide (estimateNum W (cur + 1) prev ws (now + R * nsPerSec) < limit * (W * nsPerSec))
+  | none => true
+
 end Rivaas.RateLimit
